@@ -42,7 +42,7 @@ pub struct RefTrace {
     pub main: u64,
     pub main_entry_sp: u64,
     pub steps: Vec<Step>,
-    /// distinct shadow stacks (outermost first; frame 0 is the first call made from main)
+    /// distinct shadow stacks (outermost first; frame 0 is main's activation; empty after main returned)
     pub stacks: Vec<Vec<Frame>>,
     pub stdout: String,
     pub exit_code: i32,
@@ -104,8 +104,11 @@ pub fn hash_regs(r: &libc::user_regs_struct) -> u64 {
     // everything the program can observe, minus pc/sp (kept separately), segment bases and
     // the trap/resume flags the tracer manipulates
     let fl = r.eflags & !(0x100 | 0x10000);
+    // r11 receives rflags at every `syscall`; under the reference tracer's single-stepping that
+    // copy has TF set, under a free-running debugger it has not: ignore that one bit
+    let r11 = r.r11 & !0x100;
     [
-        r.rax, r.rbx, r.rcx, r.rdx, r.rsi, r.rdi, r.rbp, r.r8, r.r9, r.r10, r.r11, r.r12, r.r13,
+        r.rax, r.rbx, r.rcx, r.rdx, r.rsi, r.rdi, r.rbp, r.r8, r.r9, r.r10, r11, r.r12, r.r13,
         r.r14, r.r15, fl,
     ]
     .hash(&mut h);
@@ -256,10 +259,11 @@ pub fn trace(exe: &str, max_steps: usize) -> Result<RefTrace, String> {
     let main_entry_sp = regs.rsp;
     let top = main_entry_sp + 8;
     let mut steps = vec![];
-    let mut shadow: Vec<Frame> = vec![];
-    let mut stacks: Vec<Vec<Frame>> = vec![vec![]];
+    // frame 0 is main's own activation (return address = the word at the entry stack pointer)
+    let main_ret = peek(pid, main_entry_sp)?;
+    let mut shadow: Vec<Frame> = vec![Frame { ret: main_ret, cfa: main_entry_sp + 8, entry: info.main }];
+    let mut stacks: Vec<Vec<Frame>> = vec![];
     let mut stack_idx: std::collections::HashMap<Vec<Frame>, u32> = Default::default();
-    stack_idx.insert(vec![], 0);
     let exit_code;
     loop {
         let r = getregs(pid)?;
@@ -321,8 +325,6 @@ pub fn trace(exe: &str, max_steps: usize) -> Result<RefTrace, String> {
             shadow.push(Frame { ret: r.rip + len, cfa: r.rsp, entry: n.rip });
         } else if is_ret && !shadow.is_empty() && n.rsp >= r.rsp + 8 {
             shadow.pop();
-        } else if is_ret && shadow.is_empty() {
-            // main returned into libc: keep an empty shadow; depth bookkeeping ends here
         }
     }
     let mut so = String::new();
@@ -347,7 +349,7 @@ pub fn trace_cached(exe: &str) -> Result<(RefTrace, String), String> {
     let mut env: Vec<(String, String)> = std::env::vars().collect();
     env.sort();
     env.hash(&mut envh);
-    let cache = format!("{exe}.reftrace.{:016x}.json", envh.finish());
+    let cache = format!("{exe}.reftrace.v3.{:016x}.json", envh.finish());
     let exe_m = std::fs::metadata(exe).and_then(|m| m.modified()).ok();
     if let (Ok(m), Some(em)) = (std::fs::metadata(&cache).and_then(|m| m.modified()), exe_m) {
         if m >= em {
